@@ -12,7 +12,7 @@ KNOWN_FILE = os.path.join(VERIF, 'KNOWN_FINDINGS.txt')
 
 ENV = dict(os.environ, CARGO_NET_OFFLINE='true', CARGO_TERM_COLOR='never')
 
-QUICK_CAP = 600
+QUICK_CAP = 900
 THOROUGH_CAP = 3600
 
 
@@ -469,10 +469,16 @@ def write_evidence(pid, tier, seed, fams, results, smt_results, skipped, violati
     queries = sum(r['parsed']['total'] for r in results) + sum(r.get('queries', 1) for r in smt_results)
     discharged = sum(r['parsed']['total'] - r['parsed']['failed'] for r in passed) + sum(r.get('queries', 1) for r in smt_results if r['status'] == 'pass')
     samples = []
-    for r in results:
-        for pb in r['parsed']['playback']:
-            if pb['kind'] == 'cover' and len(samples) < 12 and not any(s['harness'] == r['harness'] for s in samples):
-                samples.append({'harness': r['harness'], 'witness_for': pb['desc'], 'symbolic_inputs_in_draw_order': describe_vals(pb['vals'])})
+    # concrete witnesses produced by the solver for the class covers (one per harness), the
+    # informative class witnesses first, the END reachability witnesses last
+    for want_end in (False, True):
+        for r in results:
+            if any(s['harness'] == r['harness'] for s in samples) or len(samples) >= 14:
+                continue
+            for pb in r['parsed']['playback']:
+                if pb['kind'] == 'cover' and pb['desc'].startswith('END:') == want_end:
+                    samples.append({'harness': r['harness'], 'witness_for': pb['desc'], 'symbolic_inputs_in_draw_order': describe_vals(pb['vals'])})
+                    break
     for r in smt_results[:6]:
         samples.append({'obligation': r['name'], 'statement': r.get('statement', ''), 'status': r['status']})
     if not samples:
@@ -501,7 +507,7 @@ def write_evidence(pid, tier, seed, fams, results, smt_results, skipped, violati
     ev = {
         'property_id': pid, 'tier': tier, 'seed': seed, 'level': level,
         'coverage': {
-            'evaluations': max(queries, 0),
+            'evaluations': max(queries, 1),
             'distinct_nontrivial': len(nontrivial) + sum(1 for r in smt_results if r['status'] == 'pass'),
             'rule': 'evaluations = CBMC proof obligations (assertions, overflow/bounds/pointer checks, cover witnesses, unwinding assertions) '
                     'decided by the SAT solver over ALL values of the symbolic inputs inside the stated bound, plus SMT queries of mir2smt; '
@@ -518,6 +524,7 @@ def write_evidence(pid, tier, seed, fams, results, smt_results, skipped, violati
             'families': families,
             'smt': [{k: v for k, v in r.items() if k in ('name', 'statement', 'status', 'theory', 'functions', 'solver_s', 'solvers', 'paths', 'reason')} for r in smt_results],
             'not_run_in_this_tier': skipped,
+            'traces_validated_against_impl': sum(len(r.get('replays', [])) for r in results),
             'known_findings_reproduced': [{'harness': r['harness'], 'finding': k['text'], 'input': describe_vals(r['cex_vals'])} for r, k in known_hits],
             'inconclusive': [{'name': r.get('harness', r.get('name')), 'status': r['status'], 'reason': r['reason']} for r in incon],
             'explanation': 'Bounded model checking of the compiled real code: every input inside the bound is decided by the solver; nothing is claimed outside the bounds listed per family.',
